@@ -8,7 +8,8 @@ RULE = ("trees of C01 (a fifth of them with one malformed file) x callback polic
         "WithCallback); observations: return code, out-pointer state, the exact sequence of paths the callback was asked "
         "about with its verdicts, the sequence of files really opened (fopen wrapped), the callback data pointer, dump of "
         "the result; the oracle checks directly on the implementation's logs that every opened file was accepted just before, "
-        "that a rejection gives the callback code, no history and no entries; distinct by scenario")
+        "that a rejection gives the callback code, no history and no entries; in a quarter of the scenarios the callback itself reads a "
+        "layered configuration of its own with the library before every verdict (cbnest); distinct by scenario")
 
 def gen(rng, tier):
     n = 1500 if tier == "quick" else 50000
@@ -24,8 +25,18 @@ def gen(rng, tier):
         elif r < 0.8: pol = "cb reject " + ",".join(enc(p.replace(b"/r/", b"/r//", 1) if st["mode"] in (1, 3) and rng.random() < 0.8 else p)
                                                      for p in rng.sample(files, min(len(files), rng.randrange(1, 3))))
         else: pol = "cb reject " + ",".join(enc(p) for p in files)
-        cmds = st["cmds"] + st["pre"] + [pol, st["read"], "dump 0"]
-        obs = [False] * (len(st["cmds"]) + len(st["pre"]) + 1) + [True, True]
+        nestc = []
+        if rng.random() < 0.25:
+            # the callback takes its decision with the library itself: before every verdict it reads a layered "policy"
+            # configuration of its own (main file + drop-ins in every directory format in use); nothing of that
+            # may show in the outer result, and the outer read goes on with the file it asked about
+            nestc = [trees.fsdir(b"/pol/usr"), trees.fsdir(b"/pol/etc"), trees.fsfile(b"/pol/usr/policy.conf", b"allow=1\n")]
+            for dd in (b"/pol/etc/policy.conf.d", b"/pol/etc/policy.d", b"/pol/etc/policy/conf.d", b"/pol/usr/policy.d"):
+                nestc += [trees.fsdir(dd), trees.fsfile(dd + b"/override.conf", b"secret=policy-only\n[policy]\nleak=1\n"),
+                          trees.fsfile(dd + b"/zz.conf", b"secret2=policy-only\n")]
+            nestc.append("cbnest %s %s %s %s" % (enc(b"/pol/usr"), enc(b"/pol/etc"), enc(b"policy"), enc(b"conf")))
+        cmds = st["cmds"] + st["pre"] + nestc + [pol, st["read"], "dump 0"]
+        obs = [False] * (len(st["cmds"]) + len(st["pre"]) + len(nestc) + 1) + [True, True]
         if st["hist"]:
             cmds.append(st["hist"]); obs.append(True)
         if files and rng.random() < 0.3:
